@@ -3,6 +3,7 @@ package sim
 import (
 	"fmt"
 	"sort"
+	"strings"
 	"time"
 
 	"gosim/hb"
@@ -437,6 +438,17 @@ func init() {
 		Check:      func(w *World, reason string) []Violation { return w.checkC07() },
 		Nontrivial: func(w *World) bool { return len(w.Plan.Rules)+len(w.Plan.Faults) > 0 }})
 	register(&Profile{Name: "c12", Prop: "C12", Generate: genBatch("c12"), Setup: batchSetup, After: batchAfter,
-		Check:      func(w *World, reason string) []Violation { return w.checkC12() },
+		Check: func(w *World, reason string) []Violation {
+			vs := w.checkC12()
+			// "each call is sent to the region owning its key": what the server
+			// observer reports about calls of a multi-request counts for C12 too
+			for _, v := range w.Env.C.Viol {
+				if strings.HasPrefix(v, "C01 routing") && strings.Contains(v, "(multi)") {
+					vs = append(vs, w.viol("C12", "batch-routing", "%s", strings.TrimPrefix(v, "C01 routing: ")))
+					break
+				}
+			}
+			return vs
+		},
 		Nontrivial: func(w *World) bool { return w.multiMixed() }})
 }
